@@ -38,7 +38,7 @@ def pick_cands(p, n, rng):
     return set(cands)
 
 
-def run_family(rep, tier, replay, prop, mix, probes, quick, thorough, by_kinds=False):
+def run_family(rep, tier, replay, prop, mix, probes, quick, thorough, by_kinds=False, run_out=False):
     cfg = quick if tier == "quick" else thorough
     rng = random.Random(vlib.seed())
     own = sc.OWN[prop]
@@ -60,6 +60,7 @@ def run_family(rep, tier, replay, prop, mix, probes, quick, thorough, by_kinds=F
     for src in sc.puppet_list(tier):
         for b in builds:
             p = sesslib.Puppet(src, *b)
+            p.lifecycle = bool(cfg.get("lifecycle"))
             if p.ambiguous:
                 raise vlib.ToolError(f"{p.key}: {p.ambiguous} (pc, TICK) pairs are not unique; stops cannot be identified")
             cands = pick_cands(p, cfg["ncands"], rng)
@@ -68,7 +69,8 @@ def run_family(rep, tier, replay, prop, mix, probes, quick, thorough, by_kinds=F
             trans += r.generated
             if prop == "C03" and b == builds[0]:
                 predictions[p.key] = sc.design_prediction(p, cands, 8, 1)
-            hists, npairs = sc.gen_histories(p, cands, cfg["maxcmd"], cfg["maxbps"], cfg["nhist"], vlib.seed(), mix)
+            hists, npairs = sc.gen_histories(p, cands, cfg["maxcmd"], cfg["maxbps"], cfg["nhist"], vlib.seed(), mix,
+                                             maxbk=cfg.get("maxbk", 3))
             pairs_covered += npairs
             if not hists:
                 raise vlib.ToolError(f"{p.key}: TLC generated no usable history")
@@ -77,7 +79,12 @@ def run_family(rep, tier, replay, prop, mix, probes, quick, thorough, by_kinds=F
             for k, h in enumerate(hists):
                 if by_kinds:
                     by = by_map(p, cands, k)
-                scripts.append(sc.to_script(p, [{kk: v for kk, v in c.items() if kk != "at"} for c in h], probes, by))
+                scr = sc.to_script(p, [{kk: v for kk, v in c.items() if kk != "at"} for c in h], probes, by)
+                if run_out:
+                    scr["cmds"].append({"cmd": "run_to_exit"})
+                if cfg.get("attach") and k % 2 == 1:
+                    scr = attach_variant(p, scr)
+                scripts.append(scr)
             res = sc.run_and_judge(p, scripts, f"{prop}-{p.key}")
             for scr, evs, vs, info in res:
                 sessions += 1
@@ -97,15 +104,45 @@ def run_family(rep, tier, replay, prop, mix, probes, quick, thorough, by_kinds=F
         "programs are the puppets under puppets/sess (deterministic, single-threaded)"])
 
 
+def attach_variant(p, scr):
+    """The same history against an externally started process (real ASLR) that the debugger attaches
+    to; the session ends by releasing it (detach or quit), after arming a watchpoint so that the
+    debug-register post-condition is not vacuous."""
+    cmds = []
+    for c in scr["cmds"]:
+        if c["cmd"] in ("restart", "drop", "run_to_exit"):
+            continue
+        if c["cmd"] == "start":
+            c = {"cmd": "continue"}
+        cmds.append(c)
+    tick = p.meta["tick_addr"]
+    cmds.append({"cmd": "watch_addr", "addr": tick, "size": 8})
+    cmds.append({"cmd": "detach"} if len(cmds) % 2 == 0 else {"cmd": "noop"})
+    s2 = dict(scr)
+    s2["cmds"] = cmds
+    s2["attach"] = True
+    return s2
+
+
 def by_map(p, cands, k):
     """Alternate between address / file:line / function breakpoints for the same locations."""
     sl = p.stmt_lines()
     inv = {a: ln for ln, a in sl.items()}
+    first_of_fn = {}
+    for x in p.X:
+        if x["st"] and x["pe"] and x["fn"] > 0:
+            first_of_fn.setdefault(x["fn"], x["pc"])
+    fn_at = {a: f for f, a in first_of_fn.items()}
     m = {}
     for n, a in enumerate(sorted(cands)):
         mode = (n + k) % 3
         if mode == 1 and a in inv:
             m[a] = ("line", inv[a])
+        elif mode == 2 and a in fn_at:
+            name = p.funcs[fn_at[a] - 1][0]
+            last = name.split("::")[-1]
+            if last.isidentifier() and sum(1 for f in p.funcs if f[0].split("::")[-1] == last) == 1:
+                m[a] = ("fn", last)
     return m
 
 
@@ -129,6 +166,10 @@ def cause_of(p, v):
             ea = epilogue_addr(p, x["fn"])
             c["skipped_row_after_epilogue_addr"] = bool(ea is not None and x["pc"] > ea)
             c["skipped_line_differs_from_landing_line"] = bool(1 <= act <= len(p.X) and p.X[act - 1]["ln"] != x["ln"])
+    if v["class"] in ("stopped_before_return", "wrong_caller_frame") and isinstance(exp, list) and exp and isinstance(act, int):
+        e0 = exp[0]
+        if 1 <= e0 <= len(p.X) and 1 <= act <= len(p.X):
+            c["recursive_return_address"] = p.X[e0 - 1]["pc"] == p.X[act - 1]["pc"]
     if v["class"] in ("backtrace_truncated", "backtrace_wrong_frame") and isinstance(exp, list):
         c["repeated_return_address"] = len(set(exp)) < len(exp)
         if isinstance(act, list) and act:
@@ -153,6 +194,18 @@ def report(rep, prop, own, p, scr, evs, vs, info, build=None):
         rep.mismatch(v["class"], v["action"], expected=v["expected"], actual=v["actual"], at_event=v["k"],
                      puppet=p.key, puppet_src=p.src.name, build=build or ["1.89", 0, True], script=scr,
                      **cause_of(p, v))
+    if prop == "C02" and scr["cmds"] and scr["cmds"][-1]["cmd"] == "run_to_exit" and info["complete"]:
+        last = info.get("last_res") or {}
+        if info.get("stdout") != p.native_stdout:
+            rep.mismatch("output_differs", "session", expected=p.native_stdout, actual=info.get("stdout"),
+                         puppet=p.key, puppet_src=p.src.name, build=build or ["1.89", 0, True], script=scr)
+        code = (last.get("ret") or {}).get("code")
+        if last.get("ok") and code != p.native_exit:
+            rep.mismatch("exit_status_differs", "session", expected=p.native_exit, actual=code,
+                         puppet=p.key, puppet_src=p.src.name, build=build or ["1.89", 0, True], script=scr)
+        if not last.get("ok") and "exit" not in str(last.get("err", "")) and not any(e.get("said") == "exit" for e in evs):
+            rep.mismatch("run_to_exit_failed", "session", actual=last, puppet=p.key, puppet_src=p.src.name,
+                         build=build or ["1.89", 0, True], script=scr)
     for pm in info.get("panics", []):
         rep.mismatch("panic", "session", actual=str(pm)[:300], puppet=p.key, puppet_src=p.src.name,
                      build=build or ["1.89", 0, True], script=scr)
